@@ -1,0 +1,68 @@
+//! Child module of `memory` (only with `--cfg multiqueue2_verif`): stand-ins with the exact
+//! signatures of the `MemoryManager` entry points, selected per harness with `#[kani::stub]`.
+//! They model a reclaimer that never reclaims and keep a ledger of what was asked of it.
+#![allow(dead_code)]
+
+use super::{MemToken, MemoryManager, ToFree};
+
+pub const MAX_TOKENS: usize = 16;
+
+pub struct Ledger {
+    pub issued: usize,
+    pub removed: usize,
+    pub live: [bool; MAX_TOKENS],
+    pub updates: usize,
+    pub frees: usize,
+    pub bad_remove: bool,
+}
+
+pub static mut LEDGER: Ledger = Ledger {
+    issued: 0,
+    removed: 0,
+    live: [false; MAX_TOKENS],
+    updates: 0,
+    frees: 0,
+    bad_remove: false,
+};
+
+#[inline(always)]
+pub fn ledger() -> &'static mut Ledger {
+    unsafe { &mut *std::ptr::addr_of_mut!(LEDGER) }
+}
+
+/// Token `i` (1-based) is the fake address `i * 8`; it is never dereferenced because
+/// `update_token` and `remove_token` are replaced together with `get_token`.
+pub fn stub_get_token(_m: &MemoryManager) -> *const MemToken {
+    let l = ledger();
+    l.issued += 1;
+    if l.issued < MAX_TOKENS {
+        l.live[l.issued] = true;
+    }
+    (l.issued * 8) as *const MemToken
+}
+
+pub fn stub_remove_token(_m: &MemoryManager, token: *const MemToken) {
+    let l = ledger();
+    let i = (token as usize) / 8;
+    l.removed += 1;
+    if i < MAX_TOKENS {
+        if !l.live[i] {
+            l.bad_remove = true;
+        }
+        l.live[i] = false;
+    }
+}
+
+pub fn stub_update_token(_m: &MemoryManager, _token: *const MemToken) {
+    ledger().updates += 1;
+}
+
+/// Never reclaims (and therefore never reuses) retired bookkeeping memory.
+pub fn stub_free<T>(_m: &MemoryManager, _pt: *mut T, _num: usize) {
+    ledger().frees += 1;
+}
+
+/// With `free` replaced nothing is ever queued for deletion.
+pub fn stub_delete(_t: ToFree) {
+    panic!("multiqueue2_verif: ToFree::delete reached although free() is stubbed");
+}
